@@ -191,6 +191,36 @@ def run(chk: Check):
             chk.disagree("Calibrator.calibrate (early stop) != BlackIt.Calibrator.calLoop",
                          {"scenario": scn_json(scn), "op_index": k, "fields": ch.diff_fields(a, b) if k is not None and k >= 0 else None, "impl": a[:500], "model": b[:500]})
     shared_scheduler(chk, rng)
+    long_history(chk, rng)
+
+
+def long_history(chk: Check, rng):
+    """a calibration with thousands of rows per batch (more than 5000 sampled parameters after two batches), a convergence precision and a saving folder: the
+    best loss rounds to zero at the third of five requested batches - the call stops there, and the folder holds exactly the state it returned with"""
+    for it in range(1 if chk.tier == "quick" else 4):
+        scn = ch.gen_scn(rng, sched="rr", conv=True, max_batches=5)
+        bs = rng.randint(2600, 3000)
+        scn.dims, scn.ensemble, scn.simlen, scn.folder, scn.verbose = 1, 1, 4, True, bool(it % 2)
+        scn.bounds, scn.precision = ((0.0,), (100.0,)), (0.5,)
+        scn.conv = rng.randint(2, 6)
+        rows = lambda: [[float(rng.randint(2, 200)) / 2.0] for _ in range(bs)]
+        script = [rows() for _ in range(6)]
+        script[2][rng.randrange(bs)] = [0.5]                     # the vector whose loss rounds to zero arrives in the third batch
+        scn.lineup = [(scn.lineup[0][0], bs, script, None)]
+        scn.loss_table = {(0.5,): rng.choice([0.0, 0.3 * 10.0 ** (-scn.conv)])}
+        scn.loss_default = 1.0 + rng.random()
+        scn.ops = [("C", 5), ("R",)]
+        scn.faults = []
+        lines, info = run_one(chk, scn)
+        cal = info["cal"]
+        chk.case(["long-history", bs, scn.conv], True, {"batch_size": bs, "precision": scn.conv, "rows": int(cal.n_sampled_params), "batches_run": int(cal.current_batch_index)})
+        chk.count("history_of_more_than_5000_rows")
+        done = [int(l.split(" b=")[1].split(" ")[0]) for l in lines if " b=" in l]
+        if len(done) >= 2 and done[1] != 3:
+            chk.fail(f"early stopping on a long history ({bs} rows per batch): calibrate(5) ran {done[1]} batches, the best loss rounds to zero at precision {scn.conv} in batch 3", {"case": scn_json(scn)})
+        if len(lines) >= 3 and ch.canon_line(lines[-1]).split(" result=")[0].split(" table=")[0] != ch.canon_line(lines[-2]).split(" result=")[0].split(" table=")[0]:
+            chk.fail(f"long history ({int(cal.n_sampled_params)} rows): the checkpoint in the saving folder is not the state calibrate() returned with after the early stop: "
+                     + str(ch.diff_fields(lines[-2], lines[-1])), {"case": {k: v for k, v in scn_json(scn).items() if k != "lineup"}})
 
 
 def shared_scheduler(chk: Check, rng):
